@@ -7,12 +7,14 @@
 //
 // Case string (also the --replay argument):
 //   T:<parent of G1>.<..>  P:<group of W1>.<W2>.<W3>  WE:i.i.i  GE:i.. K:k.k.k
-//   U:u D:d X:x N:n O:o M:r.g.p S:s.s.s I:i Q:<len><a|s>...
+//   U:u D:d X:x N:n O:o H:g.c0.c1.c2 M:r.g.p S:s.s.s I:i Q:<len><a|s>...
 //   parent -1 = FIELD; WE/GE index into the per-entity efficiency alphabets;
 //   K 0 producer (WCONHIST) 1 water injector 2 gas injector (WCONINJH);
 //   U 0 METRIC 1 FIELD 2 LAB 3 PVT-M; D start date index; X 1 = every efficiency factor moves to the next value of its
 //   alphabet at the second report step; N well naming (0: declared in name order, 1-5: other permutations of A B C,
 //   6: W_2 W_9 W_10); M tree change: a GRUPTREE after r TSTEPs (r >= 1; 0 = none) hangs group index g under p (-1 FIELD);
+//   H GEFAC history of group index g (-1: none): record k is issued at schedule step k, code = 3 * factor index + transfer flag
+//   (0 item 3 defaulted, 1 YES, 2 NO), -1 no record; it replaces GE/X for that group;
 //   O how the vectors enter the configuration: 0 listed in SUMMARY, 1 not listed (only the mandatory restart vectors are then
 //   evaluated), 2 SUMMARY lists none and a second SummaryConfig (built from a deck fragment listing all) is merge()d in,
 //   3 listed and merged, 4 not listed but required by an ACTIONX condition;
@@ -89,6 +91,7 @@ struct Case {
         s += " K:"; for (int i = 0; i < 3; ++i) s += (i ? "." : "") + std::to_string(kind[i]);
         s += " U:" + std::to_string(us) + " D:" + std::to_string(start) + " X:" + std::to_string(xe) + " N:" + std::to_string(naming);
         s += " O:" + std::to_string(origin);
+        s += " H:" + std::to_string(hg) + "." + std::to_string(hc[0]) + "." + std::to_string(hc[1]) + "." + std::to_string(hc[2]);
         s += " M:" + std::to_string(mr) + "." + std::to_string(mg) + "." + std::to_string(mp);
         s += " S:"; for (int i = 0; i < 3; ++i) s += (i ? "." : "") + std::to_string(status[i]);
         s += " I:" + std::to_string(init) + " Q:";
@@ -121,6 +124,7 @@ struct Case {
             else if (k == "U") c.us = iv.at(0);
             else if (k == "D") c.start = iv.at(0);
             else if (k == "X") c.xe = iv.at(0);
+            else if (k == "H") { c.hg = iv.at(0); for (int i = 0; i < 3; ++i) c.hc[i] = iv.at(1 + i); }
             else if (k == "O") { c.origin = iv.at(0); if (c.origin < 0 || c.origin > 4) throw std::runtime_error("bad origin"); }
             else if (k == "M") { c.mr = iv.at(0); c.mg = iv.at(1); c.mp = iv.at(2); }
             else if (k == "N") { c.naming = iv.at(0); if (c.naming < 0 || c.naming > 6) throw std::runtime_error("bad naming"); }
@@ -133,7 +137,12 @@ struct Case {
         return c;
     }
     int wei(int w, int r) const { return (xe && r >= 1) ? (we[w] + 1) % 3 : we[w]; }     // efficiency index of well w in schedule step r
-    int gei(int g, int r) const { return (xe && r >= 1) ? (ge[g] + 1) % 3 : ge[g]; }
+    // GEFAC history of one group: record k (k = 0, 1, 2) is issued at schedule step k; code = 3 * factor index + flag (0 item 3 defaulted, 1 YES, 2 NO)
+    int hg = -1; int hc[3] = {-1, -1, -1};
+    int gei(int g, int r) const {
+        if (g == hg) { int f = 0; for (int k = 0; k < 3 && k <= r; ++k) if (hc[k] >= 0) f = hc[k] / 3; return f; }     // factor of the last record so far, whatever its flag
+        return (xe && r >= 1) ? (ge[g] + 1) % 3 : ge[g];
+    }
     // admissible re-parenting: a real change, no cycle, and the new parent holds no wells (the library rejects mixed children)
     bool move_ok(int g, int p) const {
         if (g < 0 || g >= ng || p < -1 || p >= ng || p == g || p == par[g]) return false;
@@ -145,6 +154,11 @@ struct Case {
     bool valid() const {                       // acyclic tree, wells only in leaf groups (the library rejects mixed children)
         for (int i = 0; i < ng; ++i) { int g = i, n = 0; while (g >= 0) { g = par[g]; if (++n > ng) return false; } }
         for (int w = 0; w < 3; ++w) if (wg[w] < 0 || wg[w] >= ng || !leaf(wg[w])) return false;
+        if (hg >= 0) {
+            if (hg >= ng || hc[0] < 0) return false;
+            int n = 0; for (int k = 0; k < 3; ++k) { if (hc[k] > 8) return false; if (hc[k] >= 0) { if (n != k) return false; ++n; } }
+            if ((int)report_lengths().size() < n) return false;
+        }
         if (mr > 0 && (!move_ok(mg, mp) || (int)report_lengths().size() <= mr)) return false;
         return true;
     }
@@ -197,15 +211,17 @@ static std::string render_schedule(const Case& c) {
         if (r == 0) {
             std::string we, ge;
             for (int w = 0; w < 3; ++w) if (c.we[w]) we += std::string(" '") + c.wn(w) + "' " + num(WEF[w][c.we[w]]) + " /\n";
-            for (int g = 0; g < c.ng; ++g) if (c.ge[g]) ge += std::string(" '") + GN[g] + "' " + num(GEF[g][c.ge[g]]) + " /\n";
+            for (int g = 0; g < c.ng; ++g) if (c.ge[g] && g != c.hg) ge += std::string(" '") + GN[g] + "' " + num(GEF[g][c.ge[g]]) + " /\n";
             if (!we.empty()) s += "WEFAC\n" + we + "/\n";
             if (!ge.empty()) s += "GEFAC\n" + ge + "/\n";
         }
         if (r == 1 && c.xe) {
             s += "WEFAC\n"; for (int w = 0; w < 3; ++w) s += std::string(" '") + c.wn(w) + "' " + num(WEF[w][c.wei(w, 1)]) + " /\n";
-            s += "/\nGEFAC\n"; for (int g = 0; g < c.ng; ++g) s += std::string(" '") + GN[g] + "' " + num(GEF[g][c.gei(g, 1)]) + " /\n";
+            s += "/\nGEFAC\n"; for (int g = 0; g < c.ng; ++g) if (g != c.hg) s += std::string(" '") + GN[g] + "' " + num(GEF[g][c.gei(g, 1)]) + " /\n";
             s += "/\n";
         }
+        if (c.hg >= 0 && r < 3 && c.hc[r] >= 0)
+            s += std::string("GEFAC\n '") + GN[c.hg] + "' " + num(GEF[c.hg][c.hc[r] / 3]) + (c.hc[r] % 3 == 1 ? " YES" : c.hc[r] % 3 == 2 ? " NO" : "") + " /\n/\n";
         if (c.mr > 0 && (int)r == c.mr) s += std::string("GRUPTREE\n '") + GN[c.mg] + "' '" + (c.mp < 0 ? "FIELD" : GN[c.mp]) + "' /\n/\n";
         // LAB decks give time in hours
         s += "TSTEP\n " + num(c.us == 2 ? lens[r] * 24.0 : lens[r]) + " /\n";
@@ -279,7 +295,7 @@ static Built& build(const Case& c) {
 }
 
 // --------------------------------------------------------- keyword table ---
-enum KClass { K_FLOW, K_RATIO, K_CAL };
+enum KClass { K_FLOW, K_RATIO, K_CAL, K_EFF };
 struct Kw {
     std::string name; char ent;           // W G F or M (miscellaneous)
     KClass cls; char ph = 0, dir = 0; bool total = false, hist = false; int ratio = -1;   // ratio: 0 WCT 1 GOR 2 OGR 3 WGR 4 GLR
@@ -295,6 +311,7 @@ static std::vector<Kw> candidates() {
         }
         for (int r = 0; r < 5; ++r) for (int h = 0; h < 2; ++h) { Kw k; k.name = std::string(1, e) + RATIOS[r] + (h ? "H" : ""); k.ent = e; k.cls = K_RATIO; k.ratio = r; k.hist = h; v.push_back(k); }
     }
+    { Kw k; k.name = "GEFF"; k.ent = 'G'; k.cls = K_EFF; v.push_back(k); }      // the group's own efficiency factor
     for (const char* n : {"TIME", "YEARS", "DAY", "MONTH", "YEAR", "TIMESTEP"}) { Kw k; k.name = n; k.ent = 'M'; k.cls = K_CAL; v.push_back(k); }
     return v;
 }
@@ -400,7 +417,11 @@ struct Ref {
             const Kw& kw = g_kws[i];
             if (kw.cls == K_CAL) continue;
             for (int n = 0; n < nn; ++n) {
-                if (kw.cls == K_RATIO) expect[i][n] = ratio(fr[n], kw);
+                if (kw.cls == K_EFF) {          // GEFF: the group's own factor in force; Summary.cpp reports 0 for a group without wells below it
+                    bool any = false; for (int w = 0; w < 3; ++w) any |= under(w, n, hist_step);
+                    expect[i][n] = !any ? 0.0 : (n >= 3 && n < nn - 1) ? GEF[n - 3][c.gei(n - 3, hist_step)] : 1.0;
+                }
+                else if (kw.cls == K_RATIO) expect[i][n] = ratio(fr[n], kw);
                 else if (!kw.total) expect[i][n] = base(fr[n], kw);
                 else { double& t = totals[i][n]; t += base(ft[n], kw) * dt; expect[i][n] = t; }
             }
@@ -482,7 +503,8 @@ static std::string diagnose(Case& c, int kw, const Mismatch& first) {
     // order matters only for the label; every reset that keeps the failure is kept, so the reported case is small
     bool need_units = false, need_efac = false, need_status = false, need_kind = false, need_seq = false;
     { Case d = c; d.us = 0; if (c.us != 0) { if (fails(d, kw)) c = d; else need_units = true; } }
-    bool need_naming = false, need_move = false, need_origin = false;
+    bool need_naming = false, need_move = false, need_origin = false, need_hist = false;
+    { Case d = c; d.hg = -1; d.hc[0] = d.hc[1] = d.hc[2] = -1; if (c.hg >= 0) { if (fails(d, kw)) c = d; else need_hist = true; } }
     const int origin0 = c.origin;
     { Case d = c; d.origin = 0; if (c.origin != 0) { if (fails(d, kw)) c = d; else need_origin = true; } }
     { Case d = c; d.mr = 0; d.mg = 0; d.mp = -1; if (c.mr > 0) { if (fails(d, kw)) c = d; else need_move = true; } }
@@ -507,6 +529,7 @@ static std::string diagnose(Case& c, int kw, const Mismatch& first) {
     if (need_units) return std::string("units:") + USYS[c.us];
     if (k.cls == K_CAL) return "calendar";
     if (need_origin) { static const char* ON[5] = {"listed", "mandatory-not-listed", "merged", "listed-and-merged", "actionx-required"}; return std::string("config-origin:") + ON[origin0]; }
+    if (need_hist) return "efac:gefac-history";
     if (need_move) return "hierarchy:tree-change";
     if (need_efac) return need_naming ? "efac:declaration-order" : "efac";
     if (need_naming) return "declaration-order";
@@ -518,6 +541,7 @@ static std::string diagnose(Case& c, int kw, const Mismatch& first) {
     if (need_seq) return "accumulate";
     if (need_tree) return "hierarchy";
     if (k.hist) return "history";
+    if (k.cls == K_EFF) return "efac";
     if (k.cls == K_RATIO || k.ph == 'L' || k.ph == 'V') return "derived";
     return "definition";          // wrong already in the flat default model: the entry itself (wrong phase/direction/function)
 }
@@ -669,8 +693,9 @@ int main(int argc, char** argv) {
         "reference model in the harness: hierarchy walk, efficiency weights, sign split, accumulation, ratios, calendar and unit factors (stb = 0.158987294928 m3, Mscf = 28.316846592 m3, day = 86400 s, LAB scc/hr) written independently of Summary.cpp/Units.hpp",
         "efficiency convention as documented in Summary.cpp and pinned by tests/test_Summary.cpp(efficiency_factor): a well's own rate is unweighted, a group's rate carries the factors of wells and groups strictly below it, FIELD rates and every cumulative total carry the well's factor and the factor of every group up to FIELD",
         "dynamically SHUT wells are handed non-zero rates and observed rates so that 'contribute nothing' is not vacuous; STOP wells carry small cross-flow rates of mixed sign and contribute by sign; OPEN/STOP wells whose six computed rates are all exactly 0 contribute 0 to computed vectors but their observed WCONHIST/WCONINJH rates are still echoed in every history rate, ratio and total (history is independent of the computed rates for every well that is not shut)",
-        "wells only in leaf groups (the library rejects groups with both wells and sub-groups); at most one group is re-parented (one GRUPTREE at a later report step; the reference sums descendants and efficiency chains over the tree in force at each evaluated step), wells never change group or kind, efficiency factors change at most once (report step 2); rates are fingerprints, not physical solutions",
+        "wells only in leaf groups (the library rejects groups with both wells and sub-groups); at most one group is re-parented (one GRUPTREE at a later report step; the reference sums descendants and efficiency chains over the tree in force at each evaluated step), wells never change group or kind, efficiency factors change at most once (report step 2) except for one group that gets a history of up to 3 GEFAC records with transfer flags; the factor of the last record so far is in force whatever item 3 says (the flag concerns the network only); rates are fingerprints, not physical solutions",
         "configuration origins: 'merged' calls the public SummaryConfig::merge() with a second configuration built from a deck fragment (RUNSPEC+GRID+SUMMARY) against the same Schedule; in the not-listed and ACTIONX variants vectors that are not evaluated at all are skipped, not judged",
+        "GEFF (not part of the property families, observed because the GEFAC history acts on it) is judged as the group's own factor of the last GEFAC record, and 0 for a group with no wells below it as Summary.cpp defines it",
         "vectors outside W/G/F x {O,W,G,L,V} x {P,I} x {R,T,RH,TH}, the five ratios (+H) and the time vectors are not covered; connection/segment/region vectors not covered"};
     if (!setup_catalogue()) return run.finish();
 
@@ -737,6 +762,28 @@ int main(int argc, char** argv) {
             if (stop()) break;
             Case c = Case::parse(models[m]); c.us = us; c.start = (int)((q + m) % 3); c.seq = seq3[q]; c.init = init; c.xe = (int)((q + m) % 2);
             exec("B_sequences_x_units", c);
+        }
+    }
+
+    // ---- regime H: GEFAC record histories of one group: <= 2 (quick) / 3 (thorough) records at successive report steps, each
+    //      (factor in the group's 3 values) x (item 3 defaulted, YES, NO); the factor of the last record so far is in force
+    {
+        use_summary_for(3);
+        for (auto& t : tr3) {
+            Case c; c.ng = 3; set_tree(c, t);
+            auto pls = placements(c);
+            for (size_t pi = 0; pi < pls.size(); ++pi) {
+                const bool rich = pi == 0 || pi + 1 == pls.size();            // first and last placement of every forest
+                if (run.quick() && !rich) continue;
+                for (int w = 0; w < 3; ++w) { c.wg[w] = pls[pi][w]; c.we[w] = 1; c.ge[w] = 1; }
+                c.kind[0] = 0; c.kind[1] = 0; c.kind[2] = 1;
+                for (int g = 0; g < 3; ++g) for (int c0 = 0; c0 < 9; ++c0) for (int c1 = -1; c1 < 9; ++c1) for (int c2 = -1; c2 < ((run.thorough() && rich && c1 >= 0) ? 9 : 0); ++c2) {
+                    if (stop()) break;
+                    c.hg = g; c.hc[0] = c0; c.hc[1] = c1; c.hc[2] = c2;
+                    if (c2 >= 0) c.seq = {{0, 0}, {1, 0}, {2, 0}}; else c.seq = {{0, 0}, {2, 0}};
+                    exec("H_gefac_history", c);
+                }
+            }
         }
     }
 
@@ -883,7 +930,7 @@ int main(int argc, char** argv) {
         (run.thorough() ? "; all 125 of 4 groups, depth <= 4" : "") + ") x leaf placement of the wells x WEFAC/GEFAC in {1, ~0.5, ~0.25} distinct per entity x kind {producer WCONHIST, water injector, gas injector WCONINJH} x dynamic status {OPEN, SHUT, STOP with cross-flow, OPEN with all six computed rates exactly 0, STOP with all rates 0} x {METRIC, FIELD, LAB, PVT-M} x 3 start dates x evaluation sequences over {1 d, 10 d, 0.5 d} with ministep flags x {with, without} step-0 evaluation x {constant, changed at report step 2} efficiency factors x well naming {declared in name order W1 W2 W3; the 5 other permutations of OP_A OP_B OP_C; W_2 W_9 W_10 (numeric, not lexicographic)} x group tree {constant; one group re-parented by a later GRUPTREE} x origin of the vectors in the configuration {listed in SUMMARY; not listed (mandatory restart vectors); merged from a second SummaryConfig; listed and merged; required by an ACTIONX condition}. " +
         "A: every combination with <= 2 deviations from the default (open producers, constant efficiency 1, METRIC, one 1 d step, no step-0 evaluation) over all 105 forest x placement pairs, all 21 sequences of <= 2 evaluations" +
         (run.thorough() ? ", and every combination with exactly 3 deviations where the sequence is one of {1d; 10d,0.5d; 1d(ministep),10d; 0.5d,1d}; " : "; ") +
-        "(naming alphabet in A: name order, reverse, B A C, W_2 W_9 W_10; status alphabet in A: " + (run.thorough() ? "all five for <= 2 deviations, OPEN/SHUT/STOP for the third" : "OPEN, SHUT, STOP, OPEN-zero") + "; a re-parenting at schedule step 1 is one more deviation in A, executed where the sequence has >= 2 report steps)" + (run.thorough() ? "; the five configuration origins are one more deviation point for <= 2 deviations" : "") + "; G: 4 non-listed configuration origins x 105 pairs x 3 kind assignments x " + (run.thorough() ? "4" : "2") + " efficiency patterns (status, step-0 evaluation and sequence rotated), every value present in SummaryState judged by the same reference; F: every admissible (group, new parent) re-parenting of every forest x placement pair" + (run.thorough() ? " at schedule step 1 or 2 (3 report steps) or 1 (2 report steps, ministep) x complete 2^6 efficiency product, plus efficiency change at step 1, plus all 4-group forests x placements x moves at step 1 or 2" : " at schedule step 1 or 2 (3 report steps, evaluated before and after) x 3 efficiency patterns") + "; E: 105 pairs x 3 kind assignments x 9 status patterns with zero-rate OPEN/STOP wells (one well at a time, all, mixed with SHUT/STOP), all factors non-unit; B: all 129 sequences of <= 3 evaluations x 4 unit systems x step-0 evaluation on 3 fixed rich models" +
+        "(naming alphabet in A: name order, reverse, B A C, W_2 W_9 W_10; status alphabet in A: " + (run.thorough() ? "all five for <= 2 deviations, OPEN/SHUT/STOP for the third" : "OPEN, SHUT, STOP, OPEN-zero") + "; a re-parenting at schedule step 1 is one more deviation in A, executed where the sequence has >= 2 report steps)" + (run.thorough() ? "; the five configuration origins are one more deviation point for <= 2 deviations" : "") + "; H: one group's GEFAC history: every sequence of <= " + (run.thorough() ? "2 records on all 105 pairs and <= 3 records on the first and last placement of every forest" : "2 records on the first and last placement of every forest") + ", record = (factor in the group's 3 values) x (item 3 defaulted, YES, NO) at successive report steps, every group; G: 4 non-listed configuration origins x 105 pairs x 3 kind assignments x " + (run.thorough() ? "4" : "2") + " efficiency patterns (status, step-0 evaluation and sequence rotated), every value present in SummaryState judged by the same reference; F: every admissible (group, new parent) re-parenting of every forest x placement pair" + (run.thorough() ? " at schedule step 1 or 2 (3 report steps) or 1 (2 report steps, ministep) x complete 2^6 efficiency product, plus efficiency change at step 1, plus all 4-group forests x placements x moves at step 1 or 2" : " at schedule step 1 or 2 (3 report steps, evaluated before and after) x 3 efficiency patterns") + "; E: 105 pairs x 3 kind assignments x 9 status patterns with zero-rate OPEN/STOP wells (one well at a time, all, mixed with SHUT/STOP), all factors non-unit; B: all 129 sequences of <= 3 evaluations x 4 unit systems x step-0 evaluation on 3 fixed rich models" +
         (run.thorough() ? "; D: 6 non-default namings x 105 pairs x complete 2^6 efficiency product" : "; D: 6 non-default namings x 105 pairs x all factors non-unit") +
         (run.thorough() ? "; C1: 105 pairs x complete 3^6 efficiency product x 2 kind assignments; C2: 105 pairs x 27 kind x 64 status assignments over {OPEN, SHUT, STOP, OPEN-zero}; C3: 1420 pairs (4 groups) x complete 2^7 efficiency product; C4: 450 pairs (4 groups, increasing forests) x 3-valued efficiency factors on <= 2 entities" : "") +
         ". Oracle: after every Summary::eval each of the checked vectors (see notes.vectors_checked) at every well/group/FIELD node equals the harness reference (rel 1e-10). distinct = distinct vectors of all observed values";
